@@ -68,6 +68,15 @@ CHECKS.update({
         "design_ref": "DESIGN.md section 8, C12", "note": STORE_NOTE,
         "technique": "Coq proof (hint scan = data scan on listed files) + differential correspondence",
     },
+    "C13": {
+        "text": "Machine-checked proof of the exact size of the data files after a merge (what the unselected files hold plus one "
+                "copy of every record that was live in a selected file), hence: a merge never grows the store for any thresholds; "
+                "when every file holding records is selected the result is exactly the live records with no dead record or byte "
+                "left; repeating such a merge leaves the size unchanged. Differential runs list real file sizes before and after "
+                "every merge and compare them with the model and with the sum of 25+|k|+|v| over the live pairs.",
+        "design_ref": "DESIGN.md section 8, C13", "note": STORE_NOTE,
+        "technique": "Coq proof (live-bytes invariant of the merge loop) + differential correspondence on file sizes",
+    },
     "C19": {
         "text": "Machine-checked proof that in every reachable crash-free state each file's live/dead/dead-bytes counters equal "
                 "ground truth computed from the files and the index, that a counter row exists exactly for files holding "
